@@ -125,9 +125,18 @@ def cases(ctx):
                         out.append(dict(family="depth.in-specs", L=L, n=n, input=doc.encode(), cfg=cfg, accept=(n <= L), how=how))
             # ---- variable length
             cfg, pre, how = limit_cfg(rng, "var", L)
-            for form in ("literal", "concat"):
+            for form in ("literal", "concat", "second-of-two", "first-of-two"):
                 if form == "literal":
                     body = '<var v="%s"/><text xy="0 0" text="$v"/>' % ("x" * n)
+                elif form == "second-of-two":
+                    # several variables in one <var>: each value is limited (the long one sorts below the short one)
+                    if n < 1:
+                        continue
+                    body = '<var k="5" v="%s"/><text xy="0 0" text="$v"/>' % ("0" * n)
+                elif form == "first-of-two":
+                    if n < 1:
+                        continue
+                    body = '<var v="%s" k="z"/><text xy="0 0" text="$v"/>' % ("a" * n)
                 else:
                     if n < 2:
                         continue
